@@ -70,7 +70,10 @@ class ParseTree:
                 del derivations[0]
             for derivation in derivations:
                 res.append(start + derivation + end)
-            end = derivation + end
+            if derivations:
+                end = derivations[-1] + end
+            else:
+                end = [son.value] + end
         return res
 
     def to_networkx(self):
